@@ -2,9 +2,9 @@ package rules
 
 import (
 	"fmt"
-	"os"
 	"go/token"
 	"go/types"
+	"os"
 	"strings"
 
 	"kmcheck/internal/km"
